@@ -77,6 +77,16 @@ func (m *Machine) globalAddr(g *ssa.Global) *Value {
 	}
 	p := new(Value)
 	*p = m.zero(g.Type().(*types.Pointer).Elem())
+	// package initialisers are not executed (BareInits): the few library globals that code under test may read get
+	// their documented initial value here
+	if g.Pkg != nil && g.Pkg.Pkg.Path() == "net/http" && g.Name() == "DefaultClient" {
+		// var DefaultClient = &Client{}
+		if pt, ok := g.Type().(*types.Pointer).Elem().(*types.Pointer); ok {
+			cell := new(Value)
+			*cell = m.zero(pt.Elem())
+			*p = cell
+		}
+	}
 	m.globals[g] = p
 	return p
 }
